@@ -620,6 +620,30 @@ values, read again – the read returns the grid of the OLD values. -/
 example : (voxRead ⟨true, false, true, false, true⟩
     (voxRun ⟨true, false, true, false, true⟩ ⟨1, 1, 1, 1, none⟩ [.read, .setValues 2])).1 = (1, 1) := by decide
 
+/-- **`threshold` keeps voxels and values aligned** (the code that exists since the repair d242e0d: one mask, applied to
+`_values` and to `_data`): for every list of voxel coordinates with equally many per-voxel values and every threshold,
+the pairs (voxel, value) that remain are *exactly* the original pairs whose value is ≥ the threshold, in order – so
+the dense grid written afterwards holds those voxels with their own values – and both arrays have the same length
+(no shape mismatch when the grid is built). -/
+theorem threshold_keeps_aligned {α} (t : Nat) (vox : List α) (vals : List Nat) (hl : vox.length = vals.length) :
+    let r := thresholdSparse t vox vals
+    r.1.zip r.2 = (vox.zip vals).filter (fun p => decide (t ≤ p.2)) ∧ r.1.length = r.2.length ∧
+    r.2 = vals.filter (fun v => decide (t ≤ v)) := by
+  have hz : (thresholdSparse t vox vals).1.zip (thresholdSparse t vox vals).2 =
+      (vox.zip vals).filter (fun p => decide (t ≤ p.2)) := by
+    simp only [thresholdSparse]
+    rw [applyMask_zip, applyMask_map_snd t vox vals hl]
+  have h2 : (thresholdSparse t vox vals).2 = vals.filter (fun v => decide (t ≤ v)) := by
+    simp only [thresholdSparse]; exact applyMask_map_filter _ vals
+  exact ⟨hz, by simp only [thresholdSparse]; exact applyMask_length_eq _ vox vals hl, h2⟩
+
+example : thresholdSparse 3 ["a", "b", "c", "d"] [1, 4, 2, 3] = (["b", "d"], [4, 3]) := by decide
+
+/-- The source fact the model rests on: `threshold` assigns BOTH `_data` and `_values` (and clears the caches). -/
+theorem gen_threshold_filters_both :
+    ∃ a ∈ IoReaders.voxAssigns, a.name = "threshold" ∧ a.fields = ["_data", "_values"] ∧ a.clears = true := by
+  decide
+
 /-! ### vertex attributes with several components -/
 
 /-- `read_buffer` splits an `n × c` attribute block into `c` columns; word `p` of the block is found at row `p / c`
